@@ -1,0 +1,5 @@
+//go:build !verif
+
+package ratelimiter
+
+func vgate(string) {}
